@@ -98,7 +98,7 @@ Proof.
     intros k0. unfold mark, updN. cbn [abs c_memo c_cur absm m_val m_deps].
     destruct (k =? k0); reflexivity.
   - (* Q_publish *)
-    pose proof (publish_value Q rank seen s2 t k acc below RK I Hst) as HE.
+    pose proof (publish_value Q rank seen s2 t k acc mc below RK I Hst) as HE.
     exists true. eexists. split; [reflexivity|]. um.
     + intros k0. unfold publish, updN. cbn [abs c_memo c_cur absP p_val p_deps].
       destruct (k =? k0); [|reflexivity]. rewrite <- HE. reflexivity.
@@ -186,7 +186,8 @@ Proof.
   intros RK SK. induction 1 as [|s2 o s2' HR (seen & s & HC & He & I) Hs].
   - exists (fun _ _ => False), cinit. split; [constructor|]. split.
     + repeat split; auto.
-    + constructor; cbn; try (intros; discriminate); try (intros; contradiction). intros t. exact Logic.I.
+    + constructor; cbn; try (intros; discriminate); try (intros; contradiction);
+        try (intros t; exact Logic.I); try (unfold REV_START; lia).
   - destruct o as [t c| |t ks]; cbn [gstep2] in Hs.
     + destruct (sim_tstep seen s s2 t c s2' RK SK He I Hs) as (c' & s' & Hs' & He').
       destruct (tstep2_inv _ _ _ _ Hs) as (_ & _ & u2 & Hp & ->).
@@ -211,11 +212,13 @@ Proof.
           intros x. rewrite Ht. apply idleb_abst. }
         specialize (AI Hf t). rewrite (stack_of_ceq _ _ _ He) in AI.
         destruct (stack2 s2 t); [reflexivity | discriminate]. }
-      destruct I as [A B C D]. constructor; cbn [c2_memo c2_cur].
+      destruct I as [A B C D E0 F]. constructor; cbn [c2_memo c2_cur].
       * intros k m Hm. destruct (A _ _ Hm) as (A1 & A2 & A3 & A4 & A5). repeat split; auto. lia.
       * intros k r Hr. specialize (B _ _ Hr). lia.
       * exact C.
       * intros t. unfold stack2 in *. cbn. rewrite Hemp. exact Logic.I.
+      * lia.
+      * exact F.
     + destruct (idleb2 (c2_thr s2 t)) eqn:Ei; [|discriminate]. injection Hs as <-.
       assert (Ha : gstep fuel P' (abs s2) (GSpawn t ks) =
                    Some (mkC (c2_cur s2) (fun k => option_map absm (c2_memo s2 k)) (c2_proto s2)
@@ -227,7 +230,7 @@ Proof.
       * eapply ceq_trans; [apply ceq_sym; exact He'|]. unfold ceq, abs. cbn.
         repeat split; auto. intros t'. unfold updN. destruct (t =? t'); reflexivity.
       * unfold idleb2 in Ei. destruct (th2_stack (c2_thr s2 t)) eqn:Es; [|discriminate].
-        destruct I as [A B C D]. constructor; cbn [c2_memo c2_cur]; auto.
+        destruct I as [A B C D E0 F]. constructor; cbn [c2_memo c2_cur]; auto.
         intros t'. unfold stack2. cbn. unfold updN. destruct (N.eqb_spec t t') as [<-|Hne].
         -- cbn. exact Logic.I.
         -- apply D.
